@@ -99,6 +99,34 @@ add('C14', 'exploration', 'structural post-conditions on every equal-weight draw
     'must stay within a 1e-9 Bernstein bound of D*r overall and in eight weight-quantile groups.',
     'rows identify their source because weighted rows are distinct (C03); false-alarm <= ~2e-8 per (run, boost)', 'DESIGN.md#C14')
 
+add('C04', 'exploration', 'ensemble statistics over independent seeds with exact Student-t / chi-square thresholds for the actual ensemble size',
+    'Ensembles of 16 (quick) / 96 (thorough) independent seeds per (problem with closed-form evidence, configuration) '
+    'are tested for a systematic offset of log_z (resolution 0.5 %, 3 % with exploration kept), for calibration of '
+    'the reported error 1/sqrt(n_eff), for posterior moment offsets, and - on all families incl. funnel/ring/periodic '
+    '- for the shell volumes summing to one under a fixed-effort sampling schedule.',
+    'false-alarm probability <= ~1e-8 per invocation if the true offset is below delta; power limited by ensemble size (quick ~6 %, thorough ~1.5 %)',
+    'DESIGN.md#C04')
+
+add('C05', 'exploration', 'differential monitor: uninterrupted seeded run vs the same run cut at EVERY batch boundary (in memory and through the checkpoint into new Sampler objects / fresh processes), SHA-256 of results + evaluation log',
+    'For small runs every batch boundary k is visited: run(n_like_max=k*n_batch) slices, a new Sampler resumed from the '
+    'checkpoint copy of every k (some in a fresh interpreter), random multi-stop histories with non-multiples and '
+    'virtual-clock timeouts, and toggle histories resumed after every step must all end bit-identical to the '
+    'reference; no unit point may be evaluated on both sides of a cut.',
+    'exhaustive over batch boundaries per run, sampled over configurations; relies on determinism (C11)', 'DESIGN.md#C05')
+
+add('C06', 'fault_enumeration', 'syscall-level fault enumeration on the real process: strace census of every call on the checkpoint path + SIGKILL injection at each, leftover file compared with completed states, continuation under invariant hooks',
+    'Every state-changing system call a checkpointed run issues on the checkpoint file or its temporary is a crash '
+    'point (thorough: all ~900-1500 per configuration, three configurations; quick: stratified 64). After SIGKILL at that '
+    'call the leftover file must be loadable and logically equal to the last completed or the in-progress state, and '
+    'a new process must finish the run from it with the C01/C02 hooks silent.',
+    'process death only (page cache survives); strace kills on syscall entry; census and kill runs are the same deterministic script', 'DESIGN.md#C06')
+
+add('C11', 'exploration', 'pairwise differential monitor (SHA-256 of results) between a base run and variants that must be invisible; pool workers perturbed to complete out of order',
+    'A base run is compared bit for bit with: the same again, vectorised likelihood, likelihood pools of 1/2/4 workers '
+    'whose workers sleep point-dependent times (completion order logged; permuted batches counted), verbose output, '
+    'a checkpoint file, a run observed between batches by random read-only accessor calls, and repeated sampler-pool runs.',
+    'threads pinned to 1; scalar/vectorised compared only where both forms are verified bit-identical', 'DESIGN.md#C11')
+
 
 def main():
     checks = []
